@@ -36,8 +36,8 @@ STEP_KINDS = ["factory", "factory", "factory", "binary", "compile", "execute", "
 
 def budget(tier):
     if tier == "quick":
-        return {"cases": 400, "workers": 8, "watchdog_s": 1500}
-    return {"cases": 16000, "workers": 16, "watchdog_s": 7200}
+        return {"cases": 3000, "workers": 8, "watchdog_s": 1800}
+    return {"cases": 120000, "workers": 16, "watchdog_s": 3600, "budget_s": 600}
 
 
 def gen_case(rng, tier):
